@@ -739,6 +739,11 @@ std::vector<double> GridWavelet::getCandidateConstructionPoints(double tolerance
 
     MultiIndexSet refine_candidates = getRefinementCanidates(tolerance, criteria, output, level_limits);
     MultiIndexSet new_points = (dynamic_values->initial_points.empty()) ? std::move(refine_candidates) : refine_candidates - dynamic_values->initial_points;
+    if (!dynamic_values->data.empty()){ // samples that are already stored (waiting for their parents to be loaded) are not candidates
+        Data2D<int> stored(num_dimensions, 0);
+        for(auto const &d : dynamic_values->data) stored.appendStrip(d.point);
+        new_points = new_points - MultiIndexSet(stored);
+    }
 
     // compute the weights for the new_points points
     std::vector<double> norm = getNormalization();
